@@ -152,3 +152,23 @@ def present(a, how):
 
 
 CONTAINERS = ["array", "array", "array", "series", "series_rev"]
+
+
+# how a scalar-or-sequence argument (extra_coords, region, shape, spacing, points, sizes...) is handed to verde
+SEQS = ["list", "list", "tuple", "array", "array"]
+
+
+def seq(values, how):
+    """The same value(s) as a list / tuple / ndarray; a lone scalar as a Python
+    float, a numpy scalar or a 0-d array."""
+    if isinstance(values, (list, tuple)):
+        if how == "tuple":
+            return tuple(values)
+        if how == "array":
+            return np.array(values, dtype="float64")
+        return list(values)
+    if how == "tuple":
+        return np.float64(values)
+    if how == "array":
+        return np.array(values, dtype="float64")
+    return values
